@@ -54,6 +54,9 @@ func (p *Program) ExpectedSchemas() map[string]*schema_j5pb.RootSchema {
 			if dd, ok := d.(*Decl); ok {
 				expectDecl(out, f.Package(), dd.Name, dd)
 			}
+			if e, ok := d.(*Entity); ok {
+				expectEntity(out, f.Package(), e)
+			}
 		}
 	}
 	return out
@@ -241,9 +244,32 @@ func expectFieldRS(out map[string]*schema_j5pb.RootSchema, pkg, parent string, f
 		}
 		switch t.K {
 		case TObject:
-			return &schema_j5pb.Field{Type: &schema_j5pb.Field_Object{Object: &schema_j5pb.ObjectField{Schema: &schema_j5pb.ObjectField_Ref{Ref: ref}, Flatten: f.Flatten}}}
+			of := &schema_j5pb.ObjectField{Schema: &schema_j5pb.ObjectField_Ref{Ref: ref}, Flatten: f.Flatten}
+			if rs != nil && rs.Family == "object" {
+				for _, a := range rs.Attrs {
+					var v uint64
+					if _, err := fmt.Sscanf(a, "rules.minProperties = %d", &v); err == nil {
+						if of.Rules == nil {
+							of.Rules = &schema_j5pb.ObjectField_Rules{}
+						}
+						of.Rules.MinProperties = &v
+					}
+					var w uint64
+					if _, err := fmt.Sscanf(a, "rules.maxProperties = %d", &w); err == nil {
+						if of.Rules == nil {
+							of.Rules = &schema_j5pb.ObjectField_Rules{}
+						}
+						of.Rules.MaxProperties = &w
+					}
+				}
+			}
+			return &schema_j5pb.Field{Type: &schema_j5pb.Field_Object{Object: of}}
 		case TOneof:
-			return &schema_j5pb.Field{Type: &schema_j5pb.Field_Oneof{Oneof: &schema_j5pb.OneofField{Schema: &schema_j5pb.OneofField_Ref{Ref: ref}}}}
+			oo := &schema_j5pb.OneofField{Schema: &schema_j5pb.OneofField_Ref{Ref: ref}}
+			if rs != nil && rs.ListFilter {
+				oo.ListRules = &list_j5pb.OneofRules{Filtering: &list_j5pb.FilteringConstraint{Filterable: true}}
+			}
+			return &schema_j5pb.Field{Type: &schema_j5pb.Field_Oneof{Oneof: oo}}
 		default:
 			ef := &schema_j5pb.EnumField{Schema: &schema_j5pb.EnumField_Ref{Ref: ref}}
 			if rs != nil && (len(rs.In) > 0 || len(rs.NotIn) > 0) {
@@ -295,4 +321,41 @@ func NormalizeSchema(m proto.Message) {
 		})
 	}
 	walk(m.ProtoReflect())
+}
+
+// expectEntity: the Keys and Data objects of an entity, with their entity markers
+// and the entity-key annotations of every key.
+func expectEntity(out map[string]*schema_j5pb.RootSchema, pkg string, e *Entity) {
+	name := EntityCamel(e.Name)
+	snake := Snake(LowerFirst(name))
+	keys := &schema_j5pb.Object{Name: name + "Keys", Entity: &schema_j5pb.EntityObject{Entity: snake, Part: schema_j5pb.EntityPart_KEYS}}
+	for i, k := range e.Keys {
+		p := expectProp(out, pkg, name+"Keys", k.Field, int32(i+1))
+		if k.isPrimary() {
+			p.Required = true
+		}
+		if kf := p.Schema.GetKey(); kf != nil {
+			ek := &schema_j5pb.EntityKey{}
+			switch {
+			case k.isPrimary():
+				ek.Type = &schema_j5pb.EntityKey_PrimaryKey{PrimaryKey: true}
+			case k.Foreign != "":
+				parts := strings.Split(k.Foreign, ".")
+				ek.Type = &schema_j5pb.EntityKey_ForeignKey{ForeignKey: &schema_j5pb.EntityRef{Package: strings.Join(parts[:len(parts)-1], "."), Entity: parts[len(parts)-1]}}
+			}
+			if k.Tenant != "" {
+				ek.TenantKey = &k.Tenant
+			}
+			if ek.Type != nil || ek.TenantKey != nil || k.Primary != nil || k.ShardKey {
+				kf.Entity = ek
+			}
+		}
+		keys.Properties = append(keys.Properties, p)
+	}
+	out[pkg+"/"+name+"Keys"] = &schema_j5pb.RootSchema{Type: &schema_j5pb.RootSchema_Object{Object: keys}}
+	data := &schema_j5pb.Object{Name: name + "Data", Entity: &schema_j5pb.EntityObject{Entity: snake, Part: schema_j5pb.EntityPart_DATA}}
+	for i, f := range e.Data {
+		data.Properties = append(data.Properties, expectProp(out, pkg, name+"Data", f, int32(i+1)))
+	}
+	out[pkg+"/"+name+"Data"] = &schema_j5pb.RootSchema{Type: &schema_j5pb.RootSchema_Object{Object: data}}
 }
